@@ -69,3 +69,80 @@ contract('verif:contracts/harness.py::input_phys_from_norm', ['C08', 'C04'],
          dict(norm=Real(), ref=Real(), ref0=Real(), factor=Real(), offset=Real()),
          requires=['ref != ref0'],
          ensures=['approx(result[0], (result[1] + offset) * factor)'], modifies=[], name='lemma:input_phys_from_norm')
+
+
+# ---- ExplicitComponent._solve_linear: the -I solve is done on PHYSICAL values whatever the scaling ----------
+# The linear vectors hold scaled values; phys = data * scaler (linear vectors have no adder).  The real
+# System._unscaled_context (a generator context manager) is inlined; scale_to_phys / scale_to_norm are the
+# contracts above.  Meaning of the flags (component.py, _setup_var_data / _compute_root_scale_factors):
+# _has_output_scaling is False only if every ref == 1 and ref0 == 0, _has_resid_scaling only if every res_ref == 1.
+EC = 'openmdao/core/explicitcomponent.py'
+
+
+def lvec():
+    return Obj('DefaultVector', _data=Arr('n'), _under_complex_step=False, _scaling=TupleT(Arr('n'), None),
+               _has_solver_ref=False, _nlvec=Obj('DefaultVector', _scaling=TupleT(Arr('n'), None)))
+
+
+def _native_solve_linear(vals, np, om):
+    """The real ExplicitComponent._solve_linear and the real System._unscaled_context on a light component
+    record holding real DefaultVector objects with the given scaling arrays."""
+    import types
+    from pyvc.native_helpers import A, light_vector
+    from openmdao.core.system import System
+    sv = vals['self']
+
+    def mk(v):
+        x = light_vector(A(v['_data'], float))
+        x._scaling = (A(v['_scaling'][0], float), None)
+        x._has_solver_ref = False
+        x._nlvec = types.SimpleNamespace(_scaling=(A(v['_nlvec']['_scaling'][0], float), None))
+        return x
+    comp = types.SimpleNamespace(_doutputs=mk(sv['_doutputs']), _dresiduals=mk(sv['_dresiduals']),
+                                 _has_output_scaling=bool(sv['_has_output_scaling']), _has_resid_scaling=bool(sv['_has_resid_scaling']))
+    comp._unscaled_context = types.MethodType(System._unscaled_context, comp)
+    return dict(self=comp, mode=vals['mode']), dict(n=len(comp._doutputs._data))
+
+
+def _sample_solve_linear(mode):
+    def samp(rng):
+        from pyvc.sample import frac
+        n = rng.randint(0, 3)
+        osc, rsc = rng.random() < 0.6, rng.random() < 0.5
+
+        def arr(vals_):
+            return {'__arr__': vals_, 'shape': [n], 'dtype': 'real'}
+
+        def nz():
+            return {'__frac__': [rng.choice([-16, -4, 2, 4, 12, 16, 40]), 8]}
+
+        def vec(scaled, i):
+            sc = [nz() if scaled else {'__frac__': [1, 1]} for _ in range(n)]
+            return {'__obj__': 'DefaultVector', 'id': i, 'attrs': {
+                '_data': arr([frac(rng) for _ in range(n)]), '_under_complex_step': False,
+                '_scaling': {'__seq__': [arr(sc), None], 'tuple': True}, '_has_solver_ref': False,
+                '_nlvec': {'__obj__': 'DefaultVector', 'id': i + 10, 'attrs': {'_scaling': {'__seq__': [arr([nz() for _ in range(n)]), None], 'tuple': True}}}}}
+        return {'self': {'__obj__': 'ExplicitComponent', 'id': 0, 'attrs': {
+            '_doutputs': vec(osc, 1), '_dresiduals': vec(rsc, 2), '_has_output_scaling': osc, '_has_resid_scaling': rsc}},
+            'mode': mode, 'scope_out': {'__opaque__': 'scope_out'}, 'scope_in': {'__opaque__': 'scope_in'}}
+    return samp
+
+
+for mode, dst, src in (('fwd', '_doutputs', '_dresiduals'), ('rev', '_dresiduals', '_doutputs')):
+    stmt = 'd_outputs.set_vec(d_residuals)' if mode == 'fwd' else 'd_residuals.set_vec(d_outputs)'
+    contract(EC + '::ExplicitComponent._solve_linear', ['C08', 'C02'],
+             dict(self=Obj('ExplicitComponent', _doutputs=lvec(), _dresiduals=lvec(),
+                           _has_output_scaling=OneOf(False, True), _has_resid_scaling=OneOf(False, True)), mode=mode,
+                  scope_out=OpaqueT('scope_out'), scope_in=OpaqueT('scope_in')),
+             requires=['all(self._doutputs._scaling[0][i] != 0 and self._dresiduals._scaling[0][i] != 0 for i in range(n))',
+                       'all(self._doutputs._nlvec._scaling[0][i] != 0 and self._dresiduals._nlvec._scaling[0][i] != 0 for i in range(n))',
+                       'implies(not self._has_output_scaling, all(self._doutputs._scaling[0][i] == 1 for i in range(n)))',
+                       'implies(not self._has_resid_scaling, all(self._dresiduals._scaling[0][i] == 1 for i in range(n)))'],
+             ensures=['all(approx(self.%s._data[i] * self.%s._scaling[0][i], -(old(self.%s._data[i]) * self.%s._scaling[0][i])) for i in range(n))' % (dst, dst, src, src),
+                      'all(approx(self.%s._data[i], old(self.%s._data[i])) for i in range(n))' % (src, src)],
+             modifies=['self._doutputs._data', 'self._dresiduals._data'], inline={'_unscaled_context'},
+             name=EC + '::ExplicitComponent._solve_linear[%s]' % mode, defs={'float_tol': 1e-9},
+             native=_native_solve_linear, sampler=_sample_solve_linear(mode),
+             canaries=[('unscaled context skipped when only the outputs are scaled (the defect repaired in /repo)',
+                        (('if self._has_output_scaling or self._has_resid_scaling:\n                with self._unscaled_context(outputs=[d_outputs], residuals=[d_residuals]):\n                    %s' % stmt),
+                         ('if self._has_resid_scaling:\n                with self._unscaled_context(outputs=[d_outputs], residuals=[d_residuals]):\n                    %s' % stmt)), 'post')])
